@@ -181,6 +181,14 @@ pub fn short_writer_case(ctx: &mut Ctx, kind: &str, path: &str, build: &dyn Fn(S
     let p2 = p.clone();
     let whole = guard(std::panic::AssertUnwindSafe(move || { let mut c = Cursor::new(Vec::new()); p.write(&mut c).map(|_| c.into_inner()).map_err(|_| ()) }));
     let piece = guard(std::panic::AssertUnwindSafe(move || { let mut w = DribbleW::new(per); p2.write(&mut w).map(|_| w.inner.into_inner()).map_err(|_| ()) }));
+    // … and into a buffer that already holds something (a scratch buffer rewound and reused, a caller's array that was never
+    // zeroed): the padding of a text field is *written*, not skipped
+    let p3 = build(text.to_string());
+    let dirty = guard(std::panic::AssertUnwindSafe(move || { let mut c = Cursor::new(vec![0xA5u8; 600]); p3.write(&mut c).map(|_| { let n = c.position() as usize; c.into_inner()[..n].to_vec() }).map_err(|_| ()) }));
+    if whole != dirty {
+        ctx.violation(&format!("c11/dirty-sink/{}.{}", kind, path), "written over a buffer that already held bytes, the packet's text field is not the text followed by NUL bytes (padding skipped instead of written)", &input,
+            &format!("{:?}", whole.clone().map(|r| r.map(|b| hex(&b)))), &format!("{:?}", dirty.map(|r| r.map(|b| hex(&b)))));
+    }
     if whole != piece {
         ctx.violation(&format!("c11/short-writer/{}.{}", kind, path), "written through a sink that accepts a few bytes per call, the packet's bytes are not those written into memory (a text field came out short)", &input,
             &format!("{:?}", whole.map(|r| r.map(|b| hex(&b)))), &format!("{:?}", piece.map(|r| r.map(|b| hex(&b)))));
